@@ -228,6 +228,110 @@ def swap_arms(root):
 
 TRANSFORMS.update({"nest_else": nest_else, "swap_arms": swap_arms})
 
+
+def _each_module(root):
+    for f in glob.glob(os.path.join(root, "dask_expr", "**", "*.py"), recursive=True):
+        if os.sep + "tests" + os.sep in f:
+            continue
+        yield f, ast.parse(open(f).read())
+
+
+def _write(f, tree):
+    ast.fix_missing_locations(tree)
+    with open(f, "w") as fh:
+        fh.write(ast.unparse(tree) + "\n")
+
+
+def split_isinstance(root):
+    """isinstance(x, (A, B)) -> (isinstance(x, A) or isinstance(x, B)) for literal tuples of names"""
+    n = 0
+
+    class T(ast.NodeTransformer):
+        def visit_Call(self, node):
+            nonlocal n
+            self.generic_visit(node)
+            if isinstance(node.func, ast.Name) and node.func.id == "isinstance" and len(node.args) == 2 and isinstance(node.args[1], ast.Tuple) and len(node.args[1].elts) >= 2 and all(isinstance(e, (ast.Name, ast.Attribute)) for e in node.args[1].elts) and isinstance(node.args[0], (ast.Name, ast.Attribute)):
+                n += 1
+                return ast.BoolOp(op=ast.Or(), values=[ast.Call(func=ast.Name(id="isinstance", ctx=ast.Load()), args=[node.args[0], e], keywords=[]) for e in node.args[1].elts])
+            return node
+
+    for f, tree in _each_module(root):
+        _write(f, T().visit(tree))
+    return n
+
+
+def dict_literals(root):
+    """dict(a=1, b=2) -> {'a': 1, 'b': 2}"""
+    n = 0
+
+    class T(ast.NodeTransformer):
+        def visit_Call(self, node):
+            nonlocal n
+            self.generic_visit(node)
+            if isinstance(node.func, ast.Name) and node.func.id == "dict" and not node.args and node.keywords and all(k.arg for k in node.keywords):
+                n += 1
+                return ast.Dict(keys=[ast.Constant(value=k.arg) for k in node.keywords], values=[k.value for k in node.keywords])
+            return node
+
+    for f, tree in _each_module(root):
+        _write(f, T().visit(tree))
+    return n
+
+
+def operand_access(root):
+    """self.p -> self.operand('p') inside methods of expression classes, for parameters p that no class attribute / property
+    shadows (there `self.p` is answered by Expr.__getattr__ from the operands, i.e. the very same value)"""
+    from sa.model import Model
+
+    model = Model(root)
+    n = 0
+    edits = {}
+    for c in model.expr_classes():
+        try:
+            params = set(model.parameters(c))
+        except Exception:
+            continue
+        if not params:
+            continue
+        # only where every class that can run the method agrees: p is a plain operand for c and all its subclasses
+        for mem in c.members.values():
+            if mem.kind == "attr" or not isinstance(mem.node, ast.FunctionDef):
+                continue
+            users = [k for k in model.subclasses(c) if k.provider(mem.name) is not None and k.provider(mem.name).node is mem.node]
+            for node in ast.walk(mem.node):
+                if isinstance(node, ast.Attribute) and isinstance(node.ctx, ast.Load) and isinstance(node.value, ast.Name) and node.value.id == "self":
+                    a = node.attr
+                    ok = bool(users)
+                    for k in users:
+                        try:
+                            kp = model.parameters(k)
+                        except Exception:
+                            ok = False
+                            break
+                        if a not in kp or model.attr_kind(k, a)[0] != "operand":
+                            ok = False
+                            break
+                    if ok:
+                        edits.setdefault(c.module.rel, []).append((node.lineno, node.col_offset, node.end_lineno, node.end_col_offset, a))
+    for rel, lst in edits.items():
+        path = os.path.join(root, rel)
+        lines = open(path).read().split("\n")
+        for l0, c0, l1, c1, a in sorted(set(lst), reverse=True):
+            if l0 != l1:
+                continue
+            line = lines[l0 - 1]
+            # col offsets are utf8 byte offsets; the package is ascii in code positions that matter
+            seg = line[c0:c1]
+            if seg != f"self.{a}":
+                continue
+            lines[l0 - 1] = line[:c0] + f'self.operand("{a}")' + line[c1:]
+            n += 1
+        open(path, "w").write("\n".join(lines))
+    return n
+
+
+TRANSFORMS.update({"split_isinstance": split_isinstance, "dict_literals": dict_literals, "operand_access": operand_access})
+
 if __name__ == "__main__":
     import sys
 
